@@ -209,6 +209,9 @@ def _const_nasa(name, phase, **kw):
     return Nasa(name=name, T_low=100., T_mid=1000., T_high=5000., a_low=a, a_high=a, phase=phase, **kw)
 
 
+OMKM_UNITS = ['molec/cm2', 'mol/cm2', 'mol/m2', 'molec/m2']
+
+
 def check_A(case, ctx):
     from pmutt import constants as c
     T, P = case['T'], case['P']
@@ -335,6 +338,18 @@ def check_A(case, ctx):
         # constant species: delta S(act) = 0, so the same value is expected with a TS (A/T convention)
         ctx.close('C09.A/TS-value', math.log(A1), math.log(kBh) - (nsurf - 1) * math.log(eff), rtol=1e-12,
                   atol=1e-9, detail='n_surf=%r op=%s' % (nsurf, op))
+    # the same object asked again under every other operation / unit system (no value sticks to the object)
+    for op2 in ('sum', 'min', 'max', 'mean'):
+        for u2 in (OMKM_UNITS if case['kind'] == 'omkm' else [None]):
+            kw2 = dict(kw, sden_operation=op2)
+            eff2 = getattr(np, op2)(dens)
+            if u2 is not None:
+                kw2['units'] = u2
+                q, a = u2.split('/')
+                eff2 = eff2 * c.convert_unit(initial='mol', final=q) / c.convert_unit(initial='cm2', final=a)
+            ctx.close('C09.A/repeat-on-same-object', math.log(r1.get_A(**kw2)), math.log(kBh) - (nsurf - 1) * math.log(eff2),
+                      rtol=1e-12, atol=1e-9, detail='after op=%s: n_surf=%r op=%s units=%s' % (op, nsurf, op2, u2))
+    ctx.close('C09.A/repeat-on-same-object', r1.get_A(**kw), A1, rtol=1e-14, detail='original arguments again')
 
 
 CLAUSES = [
@@ -352,6 +367,6 @@ CLAUSES = [
            'entropy route on mixed-class reactions with TS (m given or None, both directions); site-density scaling on '
            'ChemkinReaction (CatSite) and SurfaceReaction (InteractingInterface) with 0-3 surface reactants on 1-2 sites, bulk '
            'reactant, sum/min/max/mean, four unit systems, with and without TS: A>0, A(s*sigma)=A(sigma)*s^(1-n), value kB/h / '
-           'sigma^(n-1). Non-trivial = n_surf >= 2 or the entropy route', quick_shards=2),
+           'sigma^(n-1); the same object re-asked under every operation and unit system. Non-trivial = n_surf >= 2 or the entropy route', quick_shards=2),
 ]
 ASSUMPTIONS = ['kB, h, R and unit factors from pmutt.constants (C12)', 'BEP relations compared in kcal/mol (the unit of the intercept)']
